@@ -1,3 +1,129 @@
-import QcoVerif.Model.Builder
+import QcoVerif.Properties.C10
+/-
+  C04 — a (sub-)circuit's duration spans everything it contains.
+
+  About the specification evaluator of the REPAIRED duration (`evLeadSpan`, `leadSpan`; R2 of DESIGN.md):
+  the duration of a block is latest end − earliest start over the intervals of its nodes, where the interval
+  of a leaf is [start, end] and the interval of a nested block is again the span of its own nodes
+  (`block_interval_is_node_span`), so by induction over the nesting the span of all contained leaves.
+  An empty block has duration 0.  What is FOLLOWED_BY a block whose content does not start before its first
+  operations starts after everything in the block has ended (`followed_by_block_after_all`).
+  Not proved: that every head of a block starts with the block for every API-reachable heap (true after a
+  listing for links other than JOINED_END, `C10.head_starts_with_block`; a sub-circuit can never carry
+  JOINED_END through the public API because outside relations are dropped on nesting) — it is a hypothesis.
+-/
 namespace Qco.C04
+
+open Qco Qco.C10
+
+/-- `leadSpan`: span = latest end − earliest start, lead = earliest head start − earliest start. -/
+theorem leadSpan_eq (hs : List Int) (ivs : List (Int × Int)) :
+    (leadSpan hs ivs).2 = maxOf (ivs.map (·.2)) - minOf (ivs.map (·.1)) ∧
+    (leadSpan hs ivs).1 = minOf hs - minOf (ivs.map (·.1)) := ⟨rfl, rfl⟩
+
+/-- the earliest start and the latest end are attained and bound every interval. -/
+theorem span_bounds {ivs : List (Int × Int)} (hne : ivs ≠ []) :
+    (∃ iv ∈ ivs, iv.1 = minOf (ivs.map (·.1))) ∧ (∃ iv ∈ ivs, iv.2 = maxOf (ivs.map (·.2))) ∧
+    ∀ iv ∈ ivs, minOf (ivs.map (·.1)) ≤ iv.1 ∧ iv.2 ≤ maxOf (ivs.map (·.2)) := by
+  have h1 : ivs.map (·.1) ≠ [] := by simpa using hne
+  have h2 : ivs.map (·.2) ≠ [] := by simpa using hne
+  refine ⟨?_, ?_, ?_⟩
+  · have := minOf_mem h1
+    simp only [List.mem_map] at this
+    obtain ⟨iv, hiv, he⟩ := this
+    exact ⟨iv, hiv, he⟩
+  · have := maxOf_mem h2
+    simp only [List.mem_map] at this
+    obtain ⟨iv, hiv, he⟩ := this
+    exact ⟨iv, hiv, he⟩
+  · intro iv hiv
+    exact ⟨minOf_le (List.mem_map.mpr ⟨iv, hiv, rfl⟩), le_maxOf (List.mem_map.mpr ⟨iv, hiv, rfl⟩)⟩
+
+/-- an empty (sub-)circuit has duration 0. -/
+theorem empty_duration_zero {w : World} {c : Nat} (hc : (w.op c).isComp = true)
+    (he : (w.op c).graph.isEmpty = true) {d : Int} (h : DurV w c d) : d = 0 := by
+  obtain ⟨l, hls⟩ := h.decompose
+  have := hls.empty hc he
+  simp only [Prod.mk.injEq] at this
+  exact this.2
+
+/-- the interval of a leaf operation is [start, end]. -/
+theorem leaf_interval {w : World} {o : Nat} (hl : (w.op o).isComp = false) {iv : Int × Int} (h : IntervalV w o iv) :
+    ∃ s e, Start w o s ∧ End w o e ∧ iv = (s, e) := by
+  obtain ⟨s, lead, span, hs, hls, heq⟩ := h.decompose
+  have := hls.leaf hl
+  simp only [Prod.mk.injEq] at this
+  obtain ⟨h0, hd⟩ := this
+  subst h0
+  refine ⟨s, s + span, hs, End.of_start_dur hs (DurV.of_leadSpan hls), ?_⟩
+  rw [heq]; simp
+
+/-- **duration = span**: the duration of a non-empty (sub-)circuit is the latest end minus the earliest start
+    over the intervals of ALL its nodes (not only leaves of the relation tree, not only depth-1 starts). -/
+theorem duration_is_span {w : World} {c : Nat} (hc : (w.op c).isComp = true)
+    (hne : (w.op c).graph.isEmpty = false) {d : Int} (h : DurV w c d) :
+    ∃ ivs : List (Int × Int), ivs ≠ [] ∧
+      (∀ n ∈ listing (w.op c).graph, ∃ iv ∈ ivs, IntervalV w n iv) ∧
+      (∀ iv ∈ ivs, ∃ n ∈ listing (w.op c).graph, IntervalV w n iv) ∧
+      d = maxOf (ivs.map (·.2)) - minOf (ivs.map (·.1)) := by
+  obtain ⟨l, hls⟩ := h.decompose
+  obtain ⟨hs, ivs, _, _, h3, h4, hne', hv⟩ := hls.comp hc hne
+  refine ⟨ivs, hne', h3, h4, ?_⟩
+  have := congrArg Prod.snd hv
+  simpa [leadSpan] using this
+
+/-- the interval a nested block contributes to its enclosing block is the span of its own nodes' intervals,
+    provided its first operations start with the block (see the header). -/
+theorem block_interval_is_node_span {w : World} {c : Nat} (hc : (w.op c).isComp = true)
+    (hne : (w.op c).graph.isEmpty = false) (hheadsne : heads (w.op c).graph ≠ [])
+    (hheads : ∀ h ∈ heads (w.op c).graph, ∀ sh sc, Start w h sh → Start w c sc → sh = sc)
+    {iv : Int × Int} (hiv : IntervalV w c iv) :
+    ∃ ivs : List (Int × Int), ivs ≠ [] ∧
+      (∀ n ∈ listing (w.op c).graph, ∃ ivn ∈ ivs, IntervalV w n ivn) ∧
+      (∀ ivn ∈ ivs, ∃ n ∈ listing (w.op c).graph, IntervalV w n ivn) ∧
+      iv = (minOf (ivs.map (·.1)), maxOf (ivs.map (·.2))) := by
+  obtain ⟨sc, lead, span, hsc, hls, heq⟩ := hiv.decompose
+  obtain ⟨hs, ivs, h1, h2, h3, h4, hne', hv⟩ := hls.comp hc hne
+  have hsne : hs ≠ [] := by
+    cases hh : heads (w.op c).graph with
+    | nil => exact absurd hh hheadsne
+    | cons x xs =>
+      obtain ⟨s, hs', _⟩ := h1 x (by rw [hh]; exact List.mem_cons_self)
+      intro he; rw [he] at hs'; cases hs'
+  have hmin : minOf hs = sc := by
+    apply minOf_eq
+    · obtain ⟨s, hs', hx⟩ : ∃ s ∈ hs, True := by
+        cases hs with
+        | nil => exact absurd rfl hsne
+        | cons a as => exact ⟨a, List.mem_cons_self, trivial⟩
+      obtain ⟨n, hn, hst⟩ := h2 s hs'
+      have := hheads n hn s sc hst hsc
+      rw [← this]; exact hs'
+    · intro x hx
+      obtain ⟨n, hn, hst⟩ := h2 x hx
+      have := hheads n hn x sc hst hsc
+      omega
+  refine ⟨ivs, hne', h3, h4, ?_⟩
+  have hl : lead = minOf hs - minOf (ivs.map (·.1)) := by
+    have := congrArg Prod.fst hv; simpa [leadSpan] using this
+  have hsp : span = maxOf (ivs.map (·.2)) - minOf (ivs.map (·.1)) := by
+    have := congrArg Prod.snd hv; simpa [leadSpan] using this
+  rw [heq, hl, hsp, hmin]
+  ext <;> simp <;> omega
+
+/-- whenever no contained node starts before the block's first operations (lead 0), everything scheduled
+    FOLLOWED_BY the block starts only after all nodes of the block have ended. -/
+theorem followed_by_block_after_all {w : World} {c x : Nat} (hc : (w.op c).isComp = true)
+    (hne : (w.op c).graph.isEmpty = false) (hheadsne : heads (w.op c).graph ≠ [])
+    (hheads : ∀ h ∈ heads (w.op c).graph, ∀ sh sc, Start w h sh → Start w c sc → sh = sc)
+    (hx : FbStep w c x) {span : Int} (hls : LeadSpanV w c (0, span))
+    {sx : Int} (hsx : Start w x sx) {n : Nat} (hn : n ∈ listing (w.op c).graph)
+    {ivn : Int × Int} (hivn : IntervalV w n ivn) : ivn.2 ≤ sx :=
+  Qco.C10.block_after_block hc hne hheadsne hheads hx hls hsx hn hivn
+
+/-- non-vacuity of the span lemmas: three node intervals, one of them ending last without starting last, one
+    starting before the others (the two shapes the pinned code got wrong, R2). -/
+example : (leadSpan [0] [(0, 80), (0, 16), (-24, 16)]).2 = 104 ∧ (leadSpan [0] [(0, 80), (0, 16), (-24, 16)]).1 = 24 := by
+  decide
+
 end Qco.C04
